@@ -112,3 +112,111 @@ Definition ex_roundtrip_ok (F : cfmts) (G : flagcfg) (minor : Z) : bool :=
       end
   | None => false
   end.
+
+(** * particle sheets: side conditions and what the reader returns *)
+Definition tex_fits (S : sfmts) (t : texcoord) : bool := fits (s_tex S) (map VFloat t).
+(** version 1 stores four coordinates per frame, version 0 only the first one *)
+Definition frame_fits (S : sfmts) (ver : Z) (f : sheet_frame) : bool :=
+  fits (s_dur S) [VFloat (sf_duration f)] && forallb (tex_fits S) (sf_coords f)
+  && (if Z.eqb ver 0 then Nat.leb 1 (List.length (sf_coords f)) else Nat.eqb (List.length (sf_coords f)) 4).
+Definition canon_frame (ver : Z) (f : sheet_frame) : sheet_frame :=
+  if Z.eqb ver 0
+  then {| sf_duration := sf_duration f; sf_coords := match sf_coords f with t :: _ => [t; t; t; t] | [] => [] end |}
+  else {| sf_duration := sf_duration f; sf_coords := sf_coords f |}.
+Definition canon_seq (ver : Z) (q : sheet_seq) : sheet_seq :=
+  {| sq_num := sq_num q; sq_clamp := sq_clamp q; sq_total := sq_total q; sq_frames := map (canon_frame ver) (sq_frames q) |}.
+Definition seq_fits (S : sfmts) (ver : Z) (q : sheet_seq) : bool :=
+  fits (s_seq S) [VInt (sq_num q); VBool (sq_clamp q); VInt (Z.of_nat (List.length (sq_frames q))); VFloat (sq_total q)]
+  && (0 <=? sq_num q)%Z && (sq_num q <? 64)%Z && forallb (frame_fits S ver) (sq_frames q).
+Fixpoint nums_distinct (qs : list sheet_seq) : bool :=
+  match qs with [] => true | q :: r => negb (existsb (fun q' => Z.eqb (sq_num q') (sq_num q)) r) && nums_distinct r end.
+Definition sheet_fits (S : sfmts) (ver : Z) (qs : list sheet_seq) : bool :=
+  (Z.eqb ver 0 || Z.eqb ver 1) && fits (s_head S) [VInt ver; VInt (Z.of_nat (List.length qs))]
+  && Nat.leb (List.length qs) 64 && forallb (seq_fits S ver) qs && nums_distinct qs.
+Definition sfmts_wf (S : sfmts) : bool := wf_fmt (s_head S) && wf_fmt (s_seq S) && wf_fmt (s_dur S) && wf_fmt (s_tex S).
+Definition std_sfmts : sfmts := {| s_head := fmt_of "<II"; s_seq := fmt_of "<Ixxx?If"; s_dur := fmt_of "<f"; s_tex := fmt_of "<4f" |}.
+Definition ex_tex (k : N) : texcoord := [k; k + 1; k + 2; 1065353216]%N.
+Definition ex_sheet : list sheet_seq :=
+  [{| sq_num := 3; sq_clamp := true; sq_total := 1073741824;
+      sq_frames := [{| sf_duration := 1056964608; sf_coords := [ex_tex 10; ex_tex 20; ex_tex 30; ex_tex 40] |};
+                    {| sf_duration := 1065353216; sf_coords := [ex_tex 50; ex_tex 60; ex_tex 70; ex_tex 80] |}] |};
+   {| sq_num := 0; sq_clamp := false; sq_total := 0; sq_frames := [] |}].
+Definition sfmts_of_sites (head seq dur tex : site) : sfmts :=
+  {| s_head := fmt_of (w_fmt head); s_seq := fmt_of (w_fmt seq); s_dur := fmt_of (w_fmt dur); s_tex := fmt_of (w_fmt tex) |}.
+Definition frame_eqb (a b : sheet_frame) : bool :=
+  N.eqb (sf_duration a) (sf_duration b) && list_eqb bytes_eqb (sf_coords a) (sf_coords b).
+Definition seq_eqb (a b : sheet_seq) : bool :=
+  Z.eqb (sq_num a) (sq_num b) && Bool.eqb (sq_clamp a) (sq_clamp b) && N.eqb (sq_total a) (sq_total b)
+  && list_eqb frame_eqb (sq_frames a) (sq_frames b).
+(** the example sheet through given formats, as one boolean (instance obligation on the GENERATED formats) *)
+Definition ex_sheet_ok (S : sfmts) (ver : Z) : bool :=
+  sheet_fits S ver ex_sheet
+  && match make_sheet S ver ex_sheet with
+     | Some bs => match read_sheet S bs with
+                  | Some (v, qs) => Z.eqb v ver && list_eqb seq_eqb qs (map (canon_seq ver) ex_sheet)
+                  | None => false
+                  end
+     | None => false
+     end.
+
+(** * where save() records the offsets it patches into the file
+    The file-writing events of VTF.save in execution order, regenerated from the source: constant bytes, a packed
+    record (its field names), a deferred 4-byte slot, `deferred.set_data(key, file.tell())`, padding, any other
+    `file.write` (with the number of loops around it).  [encode_file] puts every offset exactly where the data starts;
+    the booleans below say the same about the order of the events. *)
+Inductive sev := SvConst | SvPack (fields : list string) | SvDefer (key : string) | SvSet (key : string) | SvPad (n : Z) | SvWrite (depth : nat).
+Fixpoint after_set (k : string) (evs : list sev) : option (list sev) :=
+  match evs with
+  | [] => None
+  | SvSet k' :: r => if String.eqb k k' then Some r else after_set k r
+  | _ :: r => after_set k r
+  end.
+Fixpoint before_set (k : string) (evs : list sev) : list sev :=
+  match evs with
+  | [] => []
+  | SvSet k' :: r => if String.eqb k k' then [] else SvSet k' :: before_set k r
+  | e :: r => e :: before_set k r
+  end.
+(** the offset of a data block is recorded right before its 4-byte length and its data are written *)
+Definition set_then_block (k : string) (evs : list sev) : bool :=
+  match after_set k evs with
+  | Some (SvPack f :: SvWrite _ :: _) => strs_eqb f ["block_len"%string]
+  | _ => false
+  end.
+Definition is_frame_write (e : sev) : bool := match e with SvWrite d => Nat.leb 1 d | _ => false end.
+(** thumbnail offset, thumbnail, first-frame offset, then nothing but the frames (written inside the loop nest) *)
+Definition low_high_ok (evs : list sev) : bool :=
+  match after_set "low_res" evs with
+  | Some (SvWrite O :: SvSet k :: r) => String.eqb k "high_res" && negb (Nat.eqb (List.length r) 0) && forallb is_frame_write r
+  | _ => false
+  end.
+(** the header size is the position behind the directory / the padding: no offset is recorded earlier, the next thing
+    that happens is recording the offset of the first piece of data, and no directory entry, slot or padding follows *)
+Definition header_size_ok (evs : list sev) : bool :=
+  match after_set "header_size" evs with
+  | Some (SvSet k :: post) =>
+      forallb (fun e => match e with SvSet _ => false | _ => true end) (before_set "header_size" evs)
+      && forallb (fun e => match e with
+                           | SvDefer _ | SvPad _ | SvConst => false
+                           | SvPack f => negb (existsb (String.eqb "res_flags") f)
+                           | _ => true
+                           end) post
+  | _ => false
+  end.
+Definition save_events_ok (evs : list sev) : bool :=
+  header_size_ok evs && set_then_block "res" evs && set_then_block "particle" evs && low_high_ok evs.
+Definition good_save_events : list sev :=
+  [SvConst; SvPack ["version_major"; "version_minor"]; SvDefer "header_size"; SvPack ["header_size"; "width"]; SvPack ["depth"];
+   SvPack ["num_resources"]; SvPack ["res_id"; "res_flags"]; SvDefer "res"; SvPack ["res_id"; "res_flags"; "res_data"];
+   SvPack ["id_low_res"; "res_flags"]; SvDefer "low_res"; SvPack ["id_high_res"; "res_flags"]; SvDefer "high_res";
+   SvPack ["id_particle"; "res_flags"]; SvDefer "particle"; SvPad 15; SvSet "header_size";
+   SvSet "res"; SvPack ["block_len"]; SvWrite 1; SvSet "particle"; SvPack ["block_len"]; SvWrite 0;
+   SvSet "low_res"; SvWrite 0; SvSet "high_res"; SvWrite 3]%string.
+(** shapes of faults: the thumbnail offset recorded AFTER the thumbnail was written; a block offset recorded after its length *)
+Definition res_key : string := "res"%string.
+Definition late_low_events : list sev :=
+  [SvDefer "header_size"; SvPad 15; SvSet "header_size"; SvSet "res"; SvPack ["block_len"]; SvWrite 1; SvSet "particle"; SvPack ["block_len"]; SvWrite 0;
+   SvWrite 0; SvSet "low_res"; SvSet "high_res"; SvWrite 3]%string.
+Definition late_block_events : list sev :=
+  [SvDefer "header_size"; SvPad 15; SvSet "header_size"; SvPack ["block_len"]; SvSet "res"; SvWrite 1; SvSet "particle"; SvPack ["block_len"]; SvWrite 0;
+   SvSet "low_res"; SvWrite 0; SvSet "high_res"; SvWrite 3]%string.
